@@ -96,7 +96,15 @@ func absExpr(e ast.Expr) Node {
 		for k, v := range x.Properties {
 			m[k] = absExpr(v)
 		}
-		return Node{"k": "obj", "props": m}
+		keys := x.Keys
+		if len(keys) != len(x.Properties) {
+			keys = make([]string, 0, len(x.Properties))
+			for k := range x.Properties {
+				keys = append(keys, k)
+			}
+			sort.Strings(keys)
+		}
+		return Node{"k": "obj", "props": m, "keys": keys}
 	default:
 		return absStmt(e)
 	}
@@ -299,4 +307,79 @@ func symbolicName(s string) string {
 		return k
 	}
 	return s
+}
+
+// ---- real AST -> the tree shape of BornoSyntax (for trace validation of programs that did not come from a family)
+
+func specNum(bits string) Node {
+	u, _ := strconv.ParseUint(bits, 16, 64)
+	return Node{"t": "num", "n": canonNum(math.Float64frombits(u))}
+}
+
+func specKids(cs []interface{}) []interface{} {
+	o := make([]interface{}, len(cs))
+	for i, c := range cs {
+		o[i] = specTree(c.(Node))
+	}
+	return o
+}
+
+// specTree converts the abstraction of abstract.go into the exact record shapes BornoSyntax's constructors build.
+func specTree(n Node) Node {
+	k, _ := n["k"].(string)
+	cs, _ := n["c"].([]interface{})
+	stmt := func(m Node) Node { m["ln"] = 0; return m }
+	switch k {
+	case "none":
+		return Node{"k": "none"}
+	case "lit":
+		var v Node
+		switch n["t"] {
+		case "num":
+			v = specNum(n["bits"].(string))
+		case "str":
+			v = Node{"t": "str", "s": n["s"]}
+		case "bool":
+			v = Node{"t": "bool", "b": n["b"]}
+		default:
+			v = Node{"t": "nil"}
+		}
+		return Node{"k": "lit", "v": v, "c": []interface{}{}}
+	case "id":
+		return Node{"k": "id", "name": symbolicName(n["name"].(string)), "c": []interface{}{}}
+	case "grp", "iasg", "call", "idx", "arr":
+		return Node{"k": k, "c": specKids(cs)}
+	case "un", "bin":
+		return Node{"k": k, "op": n["op"], "c": specKids(cs)}
+	case "log":
+		return Node{"k": "log", "op": n["op"], "sp": "word", "c": specKids(cs)}
+	case "asg", "pasg", "prop":
+		return Node{"k": k, "name": symbolicName(n["name"].(string)), "c": specKids(cs)}
+	case "obj":
+		keys, _ := n["keys"].([]string)
+		props, _ := n["props"].(Node)
+		ks := make([]interface{}, len(keys))
+		vs := make([]interface{}, len(keys))
+		for i, key := range keys {
+			ks[i] = symbolicName(key)
+			vs[i] = specTree(props[key].(Node))
+		}
+		return Node{"k": "obj", "keys": ks, "c": vs}
+	case "expr", "print", "return", "varlist", "block", "if", "while", "for":
+		return stmt(Node{"k": k, "c": specKids(cs)})
+	case "var":
+		return stmt(Node{"k": "var", "name": symbolicName(n["name"].(string)), "c": specKids(cs)})
+	case "break", "continue":
+		return stmt(Node{"k": k, "c": []interface{}{}})
+	case "fun":
+		ps, _ := n["params"].([]interface{})
+		pp := make([]interface{}, len(ps))
+		for i, p := range ps {
+			pp[i] = symbolicName(p.(string))
+		}
+		return stmt(Node{"k": "fun", "name": symbolicName(n["name"].(string)), "params": pp, "c": specKids(cs)})
+	case "prog":
+		return Node{"k": "prog", "c": specKids(cs)}
+	}
+	return Node{"k": "unknown"}
 }
